@@ -4,6 +4,7 @@ import SaphyrModel.Proofs.SpansRun
 import SaphyrModel.Props.C17
 import SaphyrModel.Proofs.Counting
 import SaphyrModel.Proofs.BlockFold
+import SaphyrModel.Props.C04
 /-! # C12 — Reported positions are true positions
 
 **Parser half, proved for every token list** (`event_spans_are_token_spans` and its corollaries): the
@@ -262,5 +263,35 @@ example :
        markTrue (['a',':',' ','|'] ++ ['-','\r','\n',' ',' ','a','b','\n',' ',' ',' ','c','\r','x']) tok.span.stop &&
        tok.span.start.index == 9 && tok.span.stop.index == 17
      | _ => false) = true := by decide +kernel
+
+open SaphyrModel.C04S in
+/-- **The span of a single-quoted scalar starts at its opening quote and contains its closing quote — for every
+    one-line value.** Let the whole input be `pre` followed by what remains, a single-quoted scalar as in
+    `C04.single_quoted_scalar_token`, with the scanner's index equal to the number of characters consumed. Then
+    the character of the input at the token's start index is the opening quote, the character just before its
+    end index is the closing quote, the span is `2 +` the written length of the value long, lies on one line, and
+    starts before it ends. -/
+theorem single_quoted_span_covers_quotes (pre v rest : Str) (hv : ∀ c ∈ v, isBreak c = false ∧ isZ c = false)
+    (hz : isBreakz (rest.headD '\x00') = true) (u : Sc) (hk : u.inp.kind = .str)
+    (hI : u.indent ≤ (u.mark.col : Int) + 1)
+    (hi : u.inp.iter = '\'' :: (sqEnc v ++ '\'' :: rest)) (hidx : u.mark.index = pre.length)
+    (tok : Token) (u' : Sc) (h : scanFlowScalar true u = .ok (tok, u')) :
+    (pre ++ u.inp.iter)[tok.span.start.index]? = some '\'' ∧
+    (pre ++ u.inp.iter)[tok.span.stop.index - 1]? = some '\'' ∧
+    tok.span.stop.index = tok.span.start.index + (sqEnc v).length + 2 ∧
+    tok.span.stop.line = tok.span.start.line ∧ tok.span.stop.col = tok.span.start.col + (sqEnc v).length + 2 ∧
+    tok.span.stop.index ≤ (pre ++ u.inp.iter).length := by
+  rcases C04.single_quoted_scalar_token v rest hv hz u hk hI hi with ⟨p, hp⟩ | ⟨tok', w, e, _, h2, h3, _, h5, h6, h7⟩
+  · rw [hp] at h; cases h
+  rw [e] at h; cases h
+  rw [h2, h3, h7, h5, h6, hidx, hi]
+  refine ⟨?_, ?_, by omega, rfl, by omega, ?_⟩
+  · simp
+  · have : pre.length + 1 + (sqEnc v).length + 1 - 1 = pre.length + (1 + (sqEnc v).length) := by omega
+    rw [this, List.getElem?_append_right (by omega)]
+    have h1 : pre.length + (1 + (sqEnc v).length) - pre.length = (sqEnc v).length + 1 := by omega
+    rw [h1, List.getElem?_cons_succ, List.getElem?_append_right (Nat.le_refl _)]
+    simp
+  · simp only [List.length_append, List.length_cons]; omega
 
 end SaphyrModel.C12
